@@ -92,6 +92,8 @@ SUPPORT_NAME = {"c": "serialization.j2", "cpp": "serialization.j2", "py": "nunav
 SUPPORT_SETS = {
     "override": lambda lang: {SUPPORT_NAME[lang]: "{# user support template #}\nUSER SUPPORT for {{ nunavut.support.namespace | join('.') }}\n"},
     "unrelated": lambda lang: {"not_a_support_file.j2": "never used\n"},
+    # a support header that starts and ends with blank lines (for the line processors: C15)
+    "blanky": lambda lang: {SUPPORT_NAME[lang]: "\n\nUSER SUPPORT for {{ nunavut.support.namespace | join('.') }}   \n\t\n\n\n\nend of support\n\n\n"},
     # a same-named template in a sub-folder (an old copy kept around): names are paths, only the top-level one is rendered
     "subdir_shadow": lambda lang: {
         SUPPORT_NAME[lang]: "{# user support template #}\nUSER SUPPORT (top level) for {{ nunavut.support.namespace | join('.') }}\n",
